@@ -559,7 +559,7 @@ static long long do_op(op_t *o) {
     case OP_TASK_DEREG: { m_src_task_t k = { (int)a[1], task_fn }; ret = m_mod_src_deregister_task(H(a[0]), &k); break; }
     case OP_THRESH_REG: { m_src_thresh_t t = { (uint64_t)a[1], a[2] / 1000.0 }; ret = m_mod_src_register_thresh(H(a[0]), &t, (m_src_flags)(a[3] & ~M_SRC_AUTOFREE), ud_ptr(a[4], 0)); break; }
     case OP_THRESH_DEREG: { m_src_thresh_t t = { (uint64_t)a[1], a[2] / 1000.0 }; ret = m_mod_src_deregister_thresh(H(a[0]), &t); break; }
-    case OP_SRCLEN: ret = m_mod_src_len(H(a[0]), M_SRC_TYPE_END); break;
+    case OP_SRCLEN: ret = m_mod_src_len(H(a[0]), (o->na > 1 && a[1] >= 0 && a[1] <= M_SRC_TYPE_END) ? (m_src_types)a[1] : M_SRC_TYPE_END); break;   /* optional 2nd arg: source type */
     case OP_MSTATS: { m_mod_stats_t st; ret = m_mod_stats(H(a[0]), &st); if (ret == 0) tr("N mstats %d sent=%llu recv=%llu", SELF(a[0]), (unsigned long long)st.sent_msgs, (unsigned long long)st.recv_msgs); break; }
     case OP_LOOKUP: { m_mod_t *m = m_mod_lookup(H(a[0]), SL[SELF(a[1])].name); ret = m ? slot_of_mod(m) : -1; break; }
     case OP_NAMEOF: { m_mod_t *m = H(a[0]); if (!m) { ret = -1007; break; } const char *n = m_mod_name(m); ret = (n && strcmp(n, SL[SELF(a[0])].name) == 0) ? 1 : 0; if (m && m_mod_is(m, M_MOD_ZOMBIE)) ret += 10; break; }
